@@ -1,6 +1,7 @@
 import NmlVerif.Model.Schema
 import NmlVerif.Gen.Xsd
 import NmlVerif.Gen.Bindings
+import NmlVerif.Gen.Names
 /-!
 # C03 — a schema violation anywhere in a tree makes `validate(recursive=True)` fail
 
@@ -85,5 +86,61 @@ theorem c03_today (st : Nat → String → Bool) (f : Nat) (o d : Obj) (hd : Des
     (it : VItem) (hit : it ∈ schemaItems k x) (hbad : itemOK st d it = false) :
     validateAll NmlVerif.Gen.Bindings.table st f o = false :=
   c03_schema _ _ tables_agree st f o d hd k hk hkT x hx it hit hbad
+
+end NmlVerif.Schema
+
+/-! ### witnesses on today's tables -/
+namespace NmlVerif.Schema
+open NmlVerif.Binding NmlVerif.Gen.Names NmlVerif.Gen.Bindings
+
+/-- a morphology whose only segment has a distal point but NO id (`id` is inherited from BaseNonNegativeIntegerId) -/
+def wPoint : Obj := .mk nm_Point3DWithDiam [(nm_x, some "0.0"), (nm_y, some "0.0"), (nm_z, some "0.0"), (nm_diameter, some "1.0")] none []
+def wSegment : Obj := .mk nm_Segment [(nm_id, none), (nm_name, none), (nm_neuro_lex_id, none)] none
+  [(nm_parent, []), (nm_proximal, []), (nm_distal, [wPoint])]
+def wMorphology : Obj := .mk nm_Morphology [(nm_id, some "m"), (nm_metaid, none), (nm_neuro_lex_id, none)] none
+  [(nm_notes, []), (nm_properties, []), (nm_annotation, []), (nm_segments, [wSegment]), (nm_segment_groups, [])]
+
+def stTrue : Nat → String → Bool := fun _ _ => true
+
+/-- the defect repaired by the `fix:` commit: the walk as it was accepted the id-less segment (its own class,
+    `Segment`, declares no `id`), the repaired walk rejects it -/
+theorem c03_old_walk_witness :
+    validateOld table stTrue 5 wMorphology = true ∧ validateAll table stTrue 5 wMorphology = false := by
+  decide +kernel
+
+/-- hypotheses of `c03_schema` are satisfiable: the same tree, the inherited `id` item of the segment -/
+example : Desc wMorphology wSegment :=
+  Desc.step (by rw [show objKids wMorphology = [wSegment] from rfl]; exact List.mem_singleton.mpr rfl) (Desc.refl _)
+
+/-- KNOWN FINDING `C03:choice-required`: the generated `validate_` has no item for "at least one branch of a
+    required choice group": an empty `<layout/>` passes every check although the schema demands one of
+    random / grid / unstructured.  `C03_full` (every schema constraint, required choices included) is therefore
+    false of today's bindings; `c03_schema` is the part that holds. -/
+def wLayout : Obj := .mk nm_Layout [(nm_spaces, none)] none [(nm_random, []), (nm_grid, []), (nm_unstructured, [])]
+
+def C03_full : Prop :=
+  ∀ (st : Nat → String → Bool) (f : Nat) (o d : Obj), Desc o d →
+    ∀ k ∈ chain table table.length d.cls, ∀ x, findType NmlVerif.Gen.Xsd.types k.name = some x →
+      requiredChoiceOK k x d = false → validateAll table st f o = false
+
+def choiceGapB : Bool :=
+  (chain table table.length wLayout.cls).any fun k =>
+    match findType NmlVerif.Gen.Xsd.types k.name with
+    | some x => !(requiredChoiceOK k x wLayout)
+    | none => false
+
+theorem c03_choice_required_witness : ¬ C03_full := by
+  intro h
+  have key : validateAll table stTrue 3 wLayout = true := by decide +kernel
+  have gap : choiceGapB = true := by decide +kernel
+  simp only [choiceGapB, List.any_eq_true] at gap
+  obtain ⟨k, hk, hg⟩ := gap
+  cases hx : findType NmlVerif.Gen.Xsd.types k.name with
+  | none => simp [hx] at hg
+  | some x =>
+    simp only [hx, Bool.not_eq_true'] at hg
+    have := h stTrue 3 wLayout wLayout (Desc.refl _) k hk x hx hg
+    rw [key] at this
+    cases this
 
 end NmlVerif.Schema
